@@ -133,5 +133,8 @@ META["C15"]["level_text"] = META["C15"]["level_text"].replace(" The Redis-style 
 META["C03"] = dict(META["C03"])
 META["C03"]["engine"] = "A-virtual-clock + B-controlled-schedules + D-disconnect (text replies)"
 META["C03"]["technique"] = META["C03"]["technique"] + "; plus stateful property-based testing of text connections through the real Server.handle (one reply per command, its own reply, notices never delivered as replies)"
+META["C10"] = dict(META["C10"])
+META["C10"]["engine"] = "N-cluster + B-controlled-schedules"
+META["C10"]["technique"] = META["C10"]["technique"] + "; plus property-based testing of owned schedules (engine B): client requests parked in front of the shard mutex across the role change, lock-table invariance afterwards"
 _NOT_BUILT = "check not built yet in this session (planned in DESIGN.md); not claimed rather than faked"
 NOT_APPLICABLE = {f"C{i:02d}": _NOT_BUILT for i in range(1, 21)}
